@@ -222,6 +222,12 @@ def unit_small():
         out = run_sync(I.iterate_all(run_sync(I.call(IO.bytes_from_files, ((f1, f2),), {}))))
         if bytes(out) != data + bytes([last, 0x0D]):
             bad.append(f"{data.hex()}+{last:02x}0d -> {bytes(out).hex()}")
+    for files, want in (((F(b"ab"), F(b""), F(b"cd")), b"abcd"), ((F(b""), F(b"xy")), b"xy"), ((F(b"q"),), b"q"), ((), b"")):
+        ctx = Ctx()
+        I = Interp(ctx)
+        out = run_sync(I.iterate_all(run_sync(I.call(IO.bytes_from_files, (files,), {}))))
+        if bytes(out) != want:
+            bad.append(f"{len(files)} files with an empty one -> {bytes(out)!r} expected {want!r}")
     _ob(u, "C19/SMALL/bytes_from_files-yields-every-byte-of-every-file-in-order", not bad, "; ".join(bad[:3]), site="io/__init__.py:bytes_from_files")
     return u
 
